@@ -176,3 +176,28 @@ Theorem c03_a_materialisation_cannot_fail_under_the_cursor_invariant :
   forall (w : world), RO w -> exists w', spawn_all w = ROk tt w' /\ RO w' /\ Quiet w'.
 Proof. exact spawn_all_cannot_fail. Qed.
 Print Assumptions c03_a_materialisation_cannot_fail_under_the_cursor_invariant.
+
+(* World::spawn, end to end ("immediately on return for the world-level call"): on a world satisfying the plain invariant the
+   id returned is owed when the call returns, whatever the handlers of Spawn (and of everything they trigger) did; with
+   nothing reserved then, it is the id of a live entity or of one a handler despawned during the call ... *)
+Theorem c03_the_id_world_spawn_returns_was_created :
+  forall (beh : hinfo -> logent -> N -> script) (w : world) (id : key) (w' : world), RO w -> op_spawn beh w = ROk id w' ->
+    OW id w' /\ (w_rcnt w' = 0 -> sm_get id (w_ents w') <> None \/ Dead (w_ents w') id).
+Proof. exact world_spawn_id_is_created. Qed.
+Print Assumptions c03_the_id_world_spawn_returns_was_created.
+
+(* ... and every reachable world satisfies the plain invariant (hypotheses of c03_no_reservation_pending_at_a_quiescent_point) *)
+Theorem c03_every_reachable_world_satisfies_the_cursor_invariant :
+  forall (beh : hinfo -> logent -> N -> script) (fuel p : N) (ops : list top_all),
+    NoTakeSpawn beh -> no_exhaustion beh ops (world0 fuel p) ->
+    let w := fold_left (run_top_all beh) ops (world0 fuel p) in elen w < U32MAX -> RO w.
+Proof. exact reachable_RO. Qed.
+Print Assumptions c03_every_reachable_world_satisfies_the_cursor_invariant.
+
+Theorem c03_world_spawn_on_a_reachable_world :
+  forall (beh : hinfo -> logent -> N -> script) (fuel p : N) (ops : list top_all) (id : key) (w' : world),
+    NoTakeSpawn beh -> no_exhaustion beh ops (world0 fuel p) ->
+    let w := fold_left (run_top_all beh) ops (world0 fuel p) in elen w < U32MAX ->
+    op_spawn beh w = ROk id w' -> w_rcnt w' = 0 -> sm_get id (w_ents w') <> None \/ Dead (w_ents w') id.
+Proof. exact reachable_world_spawn_id_is_created. Qed.
+Print Assumptions c03_world_spawn_on_a_reachable_world.
